@@ -3,7 +3,9 @@ from . import core
 
 FRAGS = ["shoot:", "Shoot:", "SHOOT:", " shoot:", "shoot", "shoot :", "get", "set", "new", "getter", "setter", "GET", "Set", "NEW",
          "def=", "default=", "DEFAULT=", "def", "default", "defaul=", "=", ";", " ", "  ", "\t", "\n", "\n", "x", "_", "5", "200", '"a b"',
-         "get;", ";set", "newx", "xnew", "-", ".", "\r", ",", "get set", "new;get", "def=7;new", "def=;", "x=1", ":", "::"]
+         "get;", ";set", "newx", "xnew", "-", ".", "\r", ",", "get set", "new;get", "def=7;new", "def=;", "x=1", ":", "::",
+         # default EXPRESSIONS: a quoted literal followed by more, rune and raw-string literals, calls
+         '"t" + H', "'a' + 1", '`r` + "x"', "+", "f(1)", "'", '"', "`", "{}", "() {}"]
 TAGS = ['json:"a"', 'new:"-"', 'json:"', 'xjson:"q"', 'new:""', 'json:"a,omitempty"', '`', ' ', 'gorm:"x"', 'new:"-', 'json:"user_id" new:"-"', '"']
 
 
